@@ -85,7 +85,7 @@ def run_property(pid, tier="quick", seed=0, jobs=None, only=None):
     if jobs == 1:
         outs = [_task(t) for t in tasks]
     else:
-        limit = float(os.environ.get("PYVC_TASK_TIMEOUT", 240 if tier == "quick" else 1500))
+        limit = float(os.environ.get("PYVC_TASK_TIMEOUT", 600 if tier == "quick" else 1800))
         pool = mp.get_context("fork").Pool(jobs, maxtasksperchild=1)
         outs = []
         try:
